@@ -31,8 +31,12 @@ Tr(s, t, e) == [src |-> s, tgt |-> t, ev |-> e]
 Res(T, r) == [T |-> T, res |-> r]
 Err(T) == Res(T, "StatechartError")
 
-RECURSIVE Anc(_, _)
-Anc(T, s) == IF T.parent[s] <= 0 THEN {} ELSE {T.parent[s]} \cup Anc(T, T.parent[s])
+(* ancestors, with fuel: terminates (and reports s \in Anc(T, s)) even on a cyclic parent relation *)
+RECURSIVE AncF(_, _, _)
+AncF(T, s, k) ==
+  IF k = 0 \/ s \notin U THEN {}
+  ELSE IF T.parent[s] <= 0 THEN {} ELSE {T.parent[s]} \cup AncF(T, T.parent[s], k - 1)
+Anc(T, s) == AncF(T, s, M + 1)
 Desc(T, s) == {x \in T.names : s \in Anc(T, x)}
 Sub(T, s) == {s} \cup Desc(T, s)
 Kids(T, p) == IF p = 0 THEN T.roots ELSE T.children[p]
